@@ -3462,7 +3462,8 @@ evhttp_response_code_(struct evhttp_request *req, int code, const char *reason)
 	req->response_code = code;
 	if (req->response_code_line != NULL)
 		mm_free(req->response_code_line);
-	if (reason == NULL)
+	/* a reason phrase cannot contain a line break: it would end the status line */
+	if (reason == NULL || strpbrk(reason, "\r\n") != NULL)
 		reason = evhttp_response_phrase_internal(code);
 	req->response_code_line = mm_strdup(reason);
 	if (req->response_code_line == NULL) {
